@@ -97,7 +97,7 @@ bool op_to_spec(const Op& o, CallSpec& c)
 		c.frontend = 0;
 	if((c.frontend == 3 || c.frontend == 4) && c.ndim != 3)
 		c.frontend = 0;
-	if(c.frontend == 4 && !(c.lo[0] >= 0 && c.lo[1] >= -1 && c.hi[1] <= 1 && c.lo[2] >= 0 && c.hi[2] <= 2 * M_PI + 1e-12))
+	if(c.frontend == 4 && !(c.lo[0] >= 0 && c.lo[1] >= -1 && c.hi[1] <= 1 && c.hi[2] - c.lo[2] <= 2 * M_PI + 1e-12))
 		c.frontend = 0;
 	return true;
 }
@@ -358,8 +358,16 @@ CallResult run_call(const CallSpec& c, uint32_t seed)
 			for(int j = 0; j < 3; j++)
 			{
 				double v = coords[j];
-				if(j == 2 && v < c.lo[2] - tol[2] && v + 2 * M_PI <= c.hi[2] + tol[2])
-					v += 2 * M_PI;	 // phi2 = 2 pi is the same direction as 0
+				if(j == 2)
+				{
+					// the azimuth is periodic: any interval of length <= 2 pi is a legal request ([-pi,pi], a wedge across 0, ...)
+					for(int turn = -3; turn <= 3; turn++)
+					{
+						double w = coords[2] + 2 * M_PI * turn;
+						if(w >= c.lo[2] - tol[2] && w <= c.hi[2] + tol[2])
+							v = w;
+					}
+				}
 				if(!(v >= c.lo[j] - tol[j] && v <= c.hi[j] + tol[j]) && r.contained)
 				{
 					r.contained = 0;
@@ -447,8 +455,9 @@ struct Exec
 			ctx.violate(c.frontend == 4 ? "C14:containment:spherical-frontend" : c.frontend ? "C14:containment:frontend-axis" : "C14:containment", fmt("sample coordinate %d = %.17g lies outside its axis limits [%.17g,%.17g]; %s", r.bad_axis, r.bad_value, c.lo[r.bad_axis], c.hi[r.bad_axis], describe(c).c_str()));
 		}
 		// 2. entropy: exactly one device draw per call, nothing else
-		if(r.entropy_draws != 1 || entropy_other_sources())
-			ctx.violate("C14:entropy-use", fmt("call drew %llu values from std::random_device and %llu from clocks/rand (expected 1 and 0); %s", (unsigned long long) r.entropy_draws, (unsigned long long) entropy_other_sources(), describe(c).c_str()));
+		// the random seed of a call is what std::random_device delivers during it (any number of draws); clocks, rand() etc. are not
+		if(r.entropy_draws < 1 || entropy_other_sources())
+			ctx.violate("C14:entropy-use", fmt("call drew %llu values from std::random_device and %llu from clocks/rand (expected >=1 and 0); %s", (unsigned long long) r.entropy_draws, (unsigned long long) entropy_other_sources(), describe(c).c_str()));
 		// 3. budget
 		double ratio = (double) r.evals / c.ncalls;
 		ctx.metric_max(M_BUDGET_RATIO, ratio);
@@ -643,12 +652,16 @@ struct Gen
 			c.frontend = 2;
 		if(c.ndim == 3 && r.chance(0.5))
 			c.frontend = r.chance(0.3) ? 4 : 3;
-		static const std::vector<long long> BQ = {1000, 1000, 3000, 3000, 10000, 10000, 30000, 100000};
+		static const std::vector<long long> BQ = {1000, 1000, 3000, 3000, 3000, 10000, 10000, 10000, 30000, 30000, 100000, 100000, 1000, 3000, 10000, 300000};
 		static const std::vector<long long> BT = {1000, 3000, 10000, 10000, 30000, 100000, 100000, 300000, 1000000};
 		c.ncalls = (int) r.pick(thorough ? BT : BQ);
+		if(!thorough && r.chance(0.02))
+			c.ncalls = 1000000;
 		if(c.ncalls >= 100000 && c.method == 1 && !thorough && r.chance(0.5))
 			c.ncalls = 30000;
-		c.family = (int) r.pick(std::vector<long long>{0, 1, 1, 2, 2, 3, 3, 4, 4, 5});
+		c.family = (int) r.pick(std::vector<long long>{0, 0, 1, 1, 2, 2, 3, 3, 4, 4, 5});
+		if(c.ncalls >= 250000 && r.chance(0.5))
+			c.family = 0;	// the exactness clause is the sharpest oracle there is for the expensive large-budget calls
 		switch(r.below(8))
 		{
 			case 0: c.seed = 0; break;
@@ -674,8 +687,23 @@ struct Gen
 			double r1 = r.chance(0.3) ? 0.0 : r.logrange(1e-3, 1e3), r2 = r1 + r.logrange(1e-3, 1e3);
 			double c1 = r.chance(0.3) ? -1.0 : r.range(-1, 0.9), c2 = r.chance(0.3) ? 1.0 : r.range(c1 + 0.05, 1.0);
 			double p1 = r.chance(0.3) ? 0.0 : r.range(0, 5.5), p2 = r.chance(0.3) ? 2 * M_PI : r.range(p1 + 0.05, 2 * M_PI);
+			p2		  = std::min(p2, 2 * M_PI);
+			if(r.chance(0.35))
+			{
+				// other azimuth conventions: (-pi, pi], a wedge across phi = 0, intervals shifted by whole turns
+				int w = (int) r.below(3);
+				if(w == 0)
+					p1 = -M_PI + (r.chance(0.5) ? 0.0 : r.range(0, 1.5)), p2 = r.chance(0.5) ? M_PI : r.range(p1 + 0.05, M_PI);
+				else if(w == 1)
+					p1 = r.range(4.0, 6.2), p2 = p1 + r.range(0.3, 3.0);
+				else
+				{
+					double shift = 2 * M_PI * (double) r.irange(-1, 1);
+					p1 += shift, p2 += shift;
+				}
+			}
 			c.lo = {r1, c1, p1};
-			c.hi = {r2, std::min(c2, 1.0), std::min(p2, 2 * M_PI)};
+			c.hi = {r2, std::min(c2, 1.0), p2};
 		}
 		for(int j = 0; j < c.ndim; j++)
 		{
